@@ -216,7 +216,7 @@ func classifyText(p *Prog, a *Anchors, v ssa.Value, depth int) textClass {
 				}
 			}
 			return textClass{kind: "unknown", why: "result of " + name}
-		case "strings.TrimLeft", "strings.TrimRight", "strings.TrimSpace", "strings.Repeat":
+		case "strings.TrimLeft", "strings.TrimRight", "strings.TrimSpace", "strings.Repeat", "strings.TrimPrefix", "strings.TrimSuffix", "strings.Trim":
 			return classifyText(p, a, cc.Args[0], depth+1)
 		case "(*Value).String":
 			return textClass{kind: "value", val: cc.Args[0], why: "String() of a *Value"}
@@ -469,6 +469,43 @@ func ruleC02Safe(p *Prog, a *Anchors, r *Report) {
 					walk(e, d+1)
 				}
 				return
+			}
+			// the bit handed back by a helper of the package (`current, isSafe = unpackCallResult(rv)`): what the
+			// helper's returns hand back
+			if ex, ok := v.(*ssa.Extract); ok {
+				if c, isCall := ex.Tuple.(*ssa.Call); isCall {
+					if g := c.Common().StaticCallee(); g != nil && p.InPkg(g) && g.Blocks != nil {
+						for _, ret := range returnsOf(g) {
+							if ex.Index < len(ret.Results) {
+								walk(res(ret, ex.Index), d+1)
+							}
+						}
+						return
+					}
+				}
+			}
+			// the bit kept in a field of a local record (`step.safe`): what is stored into that field
+			if u, ok := v.(*ssa.UnOp); ok && u.Op == token.MUL {
+				if fa, isFA := u.X.(*ssa.FieldAddr); isFA {
+					if al, isAl := fa.X.(*ssa.Alloc); isAl && al.Parent() == f {
+						if n := structOf(al.Type()); n == nil || n.Obj().Name() != "Value" {
+							found := false
+							for _, bb := range f.Blocks {
+								for _, x := range bb.Instrs {
+									if s2, isSt := x.(*ssa.Store); isSt {
+										if fb, isFB := s2.Addr.(*ssa.FieldAddr); isFB && fb.X == ssa.Value(al) && fb.Field == fa.Field {
+											found = true
+											walk(s2.Val, d+1)
+										}
+									}
+								}
+							}
+							if found {
+								return
+							}
+						}
+					}
+				}
 			}
 			srcs = append(srcs, v)
 		}
